@@ -30,16 +30,50 @@ def _flatten_value(v, out):
         for m in v["members"]:
             _flatten_value(m.get("value"), out)
 
+_PRIM = {"u8": 1, "i8": 1, "bool": 1, "u16": 2, "i16": 2, "u32": 4, "i32": 4, "char": 4, "f32": 4, "u64": 8, "i64": 8, "usize": 8, "isize": 8, "f64": 8, "u128": 16, "i128": 16}
+
+def _type_size(tname):
+    tname = tname.strip()
+    if tname in _PRIM: return _PRIM[tname]
+    m = re.match(r"^\[(.+); (\d+)\]$", tname)
+    if m:
+        inner = _type_size(m.group(1))
+        return None if inner is None else inner * int(m.group(2))
+    return None
+
 def extract_vals(trace):
-    vals = []
+    """One entry per kani::any_raw_* call (in call order): the bytes of its return value. Array-valued calls are
+    assigned element-wise in the trace (lhs `ret[3l]`); elements the solver did not need are absent (-> 0)."""
+    vals = []; cur = None
     for st in trace:
-        if st.get("stepType") != "assignment": continue
-        lhs = st.get("lhs", "")
-        fn = st.get("sourceLocation", {}).get("function", "")
-        if lhs.startswith("goto_symex$$return_value") and fn.startswith("kani::any_raw_"):
-            out = []
-            _flatten_value(st.get("value"), out)
-            vals.append(out)
+        t = st.get("stepType")
+        if t == "function-call":
+            dn = st.get("function", {}).get("displayName", "")
+            if dn.startswith("kani::any_raw_") and cur is None:
+                m = re.match(r"^kani::any_raw_array::<(.+), (\d+)>$", dn)
+                m2 = re.match(r"^kani::any_raw_internal::<(.+)>$", dn)
+                if m: cur = {"dn": dn, "n": int(m.group(2)), "esz": _type_size(m.group(1)), "elems": {}, "whole": None}
+                else: cur = {"dn": dn, "n": None, "esz": _type_size(m2.group(1)) if m2 else None, "elems": {}, "whole": None}
+        elif t == "function-return" and cur is not None:
+            dn = st.get("function", {}).get("displayName", "")
+            if dn == cur["dn"]:
+                if cur["n"] is not None:
+                    # natively, kani's playback draws an array element by element: one entry per element
+                    esz = cur["esz"] or (len(next(iter(cur["elems"].values()))) if cur["elems"] else 1)
+                    if cur["whole"] is not None and len(cur["whole"]) == esz * cur["n"]:
+                        for k in range(cur["n"]): vals.append(cur["whole"][k * esz:(k + 1) * esz])
+                    else:
+                        for k in range(cur["n"]): vals.append(cur["elems"].get(k, [0] * esz))
+                elif cur["whole"] is not None: vals.append(cur["whole"])
+                else: vals.append([0] * (cur["esz"] or 1))
+                cur = None
+        elif t == "assignment" and cur is not None:
+            lhs = st.get("lhs", "")
+            if not lhs.startswith("goto_symex$$return_value"): continue
+            b = []; _flatten_value(st.get("value"), b)
+            m = re.search(r"\[(\d+)l?\]$", lhs)
+            if m and cur["n"] is not None: cur["elems"][int(m.group(1))] = b
+            else: cur["whole"] = b
     return vals
 
 def ensure_playback_files():
@@ -57,7 +91,7 @@ def test_source(h, vals_list):
         src += "    ];\n    kani::concrete_playback_run(concrete_vals, %s);\n}\n" % h.name
     return src
 
-def run_native(modfile, src, name_filter, release, log):
+def run_native(modfile, src, name_filter, release, log, timeout=1800):
     """returns (ran, failed_tests:list)"""
     env = dict(os.environ); env["CARGO_NET_OFFLINE"] = "true"
     env["RUSTFLAGS"] = "-Zcrate-attr=feature(allocator_api)"
@@ -77,7 +111,7 @@ def run_native(modfile, src, name_filter, release, log):
         with open(log, "w") as lf:
             lf.write("$ " + " ".join(cmd) + "\n"); lf.flush()
             try:
-                r = subprocess.run(cmd, cwd=REPO, env=env, stdout=lf, stderr=subprocess.STDOUT, timeout=1800)
+                r = subprocess.run(cmd, cwd=REPO, env=env, stdout=lf, stderr=subprocess.STDOUT, timeout=timeout, start_new_session=True)
                 rc = r.returncode
             except subprocess.TimeoutExpired:
                 rc = "timeout"
@@ -100,6 +134,7 @@ def replay_counterexample(pid, h, r):
     cmd = ["cbmc"] + CBMC_FLAGS
     if h.unwind > 0: cmd += ["--unwind", str(h.unwind), "--unwinding-assertions"]
     for us in h.unwindset: cmd += ["--unwindset", us]
+    if h.unwind > 0 and h.unwind < 40: cmd += ["--unwindset", "memcmp.0:40"]
     if h.memmodel == "loop" and h.unwind > 0:
         w = h.mcw or h.unwind
         for lp in ("memcpy.0", "memmove.0", "memmove.1"): cmd += ["--unwindset", "%s:%d" % (lp, w)]
@@ -138,7 +173,17 @@ def replay_counterexample(pid, h, r):
         f.write("// Replay natively against /repo:  /verif/check %s --replay %s\n" % (pid, rpath))
         f.write(src)
     res["path"] = rpath
-    ran, failed, panics, rc = run_native(modfile, src, "kani_concrete_playback_" + h.name + "_", False, os.path.join(rundir, "playback_dev.log"))
+    term = "term" in h.expect
+    if term:
+        # termination harness: build first (cheap no-op filter), then run with a short cap; a native run that does not
+        # finish is the reproduction of a failed unwinding assertion
+        run_native(modfile, src, "kani_concrete_playback_none_", False, os.path.join(rundir, "playback_build.log"))
+    ran, failed, panics, rc = run_native(modfile, src, "kani_concrete_playback_" + h.name + "_", False, os.path.join(rundir, "playback_dev.log"), timeout=(180 if term else 1800))
+    if term and rc == "timeout":
+        subprocess.run("pkill -f 'heathcliff-.*kani_concrete_playback_%s_' || true" % h.name, shell=True)
+        res["dev"] = {"ran": True, "failed_tests": 1, "panic": "native run did not terminate within 180 s (non-terminating loop)"}
+        res["reproduced"] = True
+        return res
     res["dev"] = {"ran": ran, "failed_tests": len(failed), "panic": (panics[0][0] + " " + panics[0][1])[:300] if panics else ""}
     if not ran:
         res["note"] = "native playback build/run failed (rc=%s), see %s" % (rc, os.path.join(rundir, "playback_dev.log")); return res
